@@ -435,9 +435,12 @@ def replay(pid, case):
             # behind the class definitions that preceded it in its shard (caches keyed by id(cls) outlive the classes)
             seed, idx = case["hist"]
             rng = random.Random(seed)
-            for i in range(idx):
-                run_hier(Acc(), gen_hier(rng), f"h{seed:x}x{i}")
             acc = Acc()
+            for i in range(idx):
+                run_hier(acc, gen_hier(rng), f"h{seed:x}x{i}")
+                if acc.violations:
+                    acc.violations[0]["what"] = f"(hierarchy #{i} of the shard's sequence, seed {seed}) " + acc.violations[0]["what"]
+                    return acc.violations[0]
             run_hier(acc, case, f"h{seed:x}x{idx}")
         return acc.violations[0] if acc.violations else None
     run_item(acc, case)
